@@ -10,8 +10,8 @@ PROP = "C08"
 
 def body():
     S.store_check(
-        PROP, model_cfgs=["StoreBridge.cfg", "StoreC04.cfg"], gen_cfgs=["StoreGenC04.cfg", "StoreGenC07.cfg"], quick_n=300, thorough_n=5000,
-        kinds_note="bridge", invs=["ProofsVerify", "RootsMirror"],
+        PROP, model_cfgs=["StoreBridge.cfg", "StoreL1.cfg"], gen_cfgs=["StoreGenC04.cfg", "StoreGenC07.cfg", "StoreGenL1C04.cfg", "StoreGenL1C07.cfg"], quick_n=150, thorough_n=3000,
+        kinds_note="bridge, l1info (L1 info tree and rollup exit tree)", invs=["ProofsVerify", "RootsMirror"],
         assumptions=["a proof is judged structurally: every sibling must carry the name of the reference sibling subtree, which implies that it folds to the root (keccak injective)"])
 
 
